@@ -5,6 +5,7 @@ package main
 
 import (
 	"fmt"
+	"sync"
 	"sync/atomic"
 	"time"
 
@@ -92,15 +93,20 @@ func lateCancel(trials int) (int, int) {
 	for i := 0; i < trials; i++ {
 		q := timed.NewQueue[int]()
 		popped, goOn := make(chan struct{}), make(chan struct{})
-		hookHandlers.Store(any(q), func(any) { close(popped); <-goOn })
+		var once sync.Once
+		hookHandlers.Store(hookKey(q), func(point string, _ any) {
+			if point == "poll:popped" {
+				once.Do(func() { close(popped); <-goOn })
+			}
+		})
 		res := make(chan int, 1)
 		e := q.Add(7, time.Now().Add(-time.Millisecond))
 		go func() { res <- q.Poll(false) }()
 		if !waitFor(popped, 2*time.Second) {
 			hung++
+			hookHandlers.Delete(hookKey(q))
 			continue
 		}
-		hookHandlers.Delete(any(q))
 		e.Cancel()
 		close(goOn)
 		select {
@@ -111,6 +117,7 @@ func lateCancel(trials int) (int, int) {
 		case <-time.After(2 * time.Second):
 			hung++
 		}
+		hookHandlers.Delete(hookKey(q))
 	}
 	return delivered, hung
 }
